@@ -1,5 +1,6 @@
 import PersimVerif.Lemmas.MGHUb
 import PersimVerif.Lemmas.MGHLbSound
+import PersimVerif.Lemmas.MGHGreedy
 
 /-!
 # C05 — the mGH estimates always bracket the true modified Gromov–Hausdorff distance
@@ -43,12 +44,16 @@ def K4 : Mat := [[0, 1, 1, 1], [1, 0, 1, 1], [1, 1, 0, 1], [1, 1, 1, 0]]
 def P5 : Mat := [[0, 1, 2, 3, 4], [1, 0, 1, 2, 3], [2, 1, 0, 1, 2], [3, 2, 1, 0, 1], [4, 3, 2, 1, 0]]
 def S5 : Mat := [[0, 1, 1, 1, 1], [1, 0, 2, 2, 2], [1, 2, 0, 2, 2], [1, 2, 2, 0, 2], [1, 2, 2, 2, 0]]
 
+/-- a tree on 5 vertices of diameter 3 (a path 0-3-1-2 with a second leaf 4 at vertex 1) -/
+def T5 : Mat := [[0, 2, 3, 1, 3], [2, 0, 1, 1, 1], [3, 1, 0, 2, 2], [1, 1, 2, 0, 2], [3, 1, 2, 2, 0]]
+
 theorem P3_dist : DistMat P3 3 := distMat_of_check (by decide)
 theorem C4_dist : DistMat C4 4 := distMat_of_check (by decide)
 theorem K3_dist : DistMat K3 3 := distMat_of_check (by decide)
 theorem K4_dist : DistMat K4 4 := distMat_of_check (by decide)
 theorem P5_dist : DistMat P5 5 := distMat_of_check (by decide)
 theorem S5_dist : DistMat S5 5 := distMat_of_check (by decide)
+theorem T5_dist : DistMat T5 5 := distMat_of_check (by decide)
 
 section
 variable {DX DY : Mat} {n m : ℕ} [NeZero n] [NeZero m]
@@ -101,18 +106,49 @@ theorem thmB_row (hY : DistMat DY m) {S : List ℕ} {d : ℕ}
   by_contra h
   exact hno (f i) (thmB_core hY hP hi (Nat.lt_of_not_le h))
 
-/-- the full statement of the lower-bound theorem -/
-def FindLbSound : Prop :=
-  ∀ {DX DY : Mat} {n m : ℕ} [NeZero n] [NeZero m], DistMat DX n → DistMat DY m →
-    ∀ kmX kmY : ℕ → ℕ → ℤ, findLb kmX kmY DX DY ≤ mGH2 (matFn DX n) (matFn DY m)
+omit [NeZero n] [NeZero m] in
+/-- **[P2] `greedy_complete`** (exchange-free proof by a Hall violator, `Lemmas/MGHGreedy.lean`):
+    for vectors `v`, `u` with entries in `1..maxD`, indexed by any finite types, if
+    `checkAssignmentFeasibility` answers `false` on their frequency distributions then there is no
+    injective assignment `σ` with `|v k − u (σ k)| < d` for all `k`. -/
+theorem greedy_complete {ι κ : Type} [Finite ι] [Finite κ] (v : ι → ℕ) (u : κ → ℕ) (maxD d : ℕ)
+    (hd : 1 ≤ d) (hv : ∀ k, 1 ≤ v k ∧ v k ≤ maxD) (hu : ∀ l, 1 ≤ u l ∧ u l ≤ maxD)
+    (h : checkAssignmentFeasibility (distOf v maxD) (distOf u maxD) d = false) :
+    ¬ Assignable v u d :=
+  greedyComplete v u maxD d hd hv hu h
 
-/-- **`find_lb` is sound**, given [P2] completeness of the greedy feasibility check
-    (`GreedyComplete`: `checkAssignmentFeasibility = false` ⇒ no injective assignment). -/
-theorem find_lb_sound_partial (hG : GreedyComplete) : FindLbSound :=
-  fun hX hY kmX kmY => findLb_le_mGH2 hG hX hY kmX kmY
+omit [NeZero n] [NeZero m] in
+/-- the same for vectors given as lists and the list-level `rowDistribution` the model uses -/
+theorem greedy_complete_list (v u : List ℕ) (maxD d : ℕ) (hd : 1 ≤ d)
+    (hv : ∀ x ∈ v, 1 ≤ x ∧ x ≤ maxD) (hu : ∀ x ∈ u, 1 ≤ x ∧ x ≤ maxD)
+    (h : checkAssignmentFeasibility (rowDistribution maxD v) (rowDistribution maxD u) d = false) :
+    ¬ AssignableList v u d := by
+  rw [← distOf_list v maxD, ← distOf_list u maxD] at h
+  exact greedyComplete _ _ maxD d hd (fun k => hv _ (List.getElem_mem k.isLt))
+    (fun l => hu _ (List.getElem_mem l.isLt)) h
+
+/-- `v = (3)`, `u = (1)`, `d = 2`: the greedy says infeasible -/
+example : checkAssignmentFeasibility (rowDistribution 3 [3]) (rowDistribution 3 [1]) 2 = false ∧
+    checkAssignmentFeasibility (rowDistribution 3 [3, 3, 1]) (rowDistribution 3 [3, 1, 1, 1]) 2 = false ∧
+    checkAssignmentFeasibility (rowDistribution 3 [3, 1, 1]) (rowDistribution 3 [2, 2, 3, 1]) 2 = true := by
+  decide
+
+/-- **`find_lb` is sound**: for all distance matrices of all sizes and every `keyMul`,
+    `find_lb ≤ 2·mGH`. -/
+theorem find_lb_sound (hX : DistMat DX n) (hY : DistMat DY m) (kmX kmY : ℕ → ℕ → ℤ) :
+    findLb kmX kmY DX DY ≤ mGH2 (matFn DX n) (matFn DY m) :=
+  findLb_le_mGH2 greedyComplete hX hY kmX kmY
 
 example : findLb (wrapMul 8) (wrapMul 8) P3 C4 = 1 ∧ findLb (wrapMul 8) (wrapMul 8) K3 K4 = 1 ∧
     findLb (wrapMul 8) (wrapMul 8) P5 S5 = 2 := by decide
+
+/-- Theorem A at work: the four leaves of the star are pairwise at distance 2 and `K3` has three
+    points — the bound 2 beats the trivial bound 1 -/
+example : trivialLb S5 K3 = 1 ∧ findLb (wrapMul 8) (wrapMul 8) S5 K3 = 2 := by decide
+
+/-- Theorem B at work (sizes 3 and 5, so Theorem A does not apply): the bound 2 beats the trivial 1 -/
+example : trivialLb P3 T5 = 1 ∧ findLb (wrapMul 8) (wrapMul 8) P3 T5 = 2 ∧
+    confirmRow 2 (sub T5 (largestBoundedCurvatureIdx (wrapMul 8) T5 3 2)) P3 3 = true := by decide
 
 /-! ### upper bound -/
 
@@ -185,16 +221,6 @@ def estimateHalf (kmX kmY : ℕ → ℕ → ℤ) (DX DY : Mat) (pXY : List (List
     (pYX : List (List ℕ)) (yYX : List ℕ) : Except Err (ℚ × ℚ) :=
   (estimate kmX kmY DX DY pXY yXY pYX yYX).map fun r => ((r.1 : ℚ) / 2, (r.2 : ℚ) / 2)
 
-/-- the full bracket statement -/
-def Brackets : Prop :=
-  ∀ {DX DY : Mat} {n m : ℕ} [NeZero n] [NeZero m], DistMat DX n → DistMat DY m →
-    ∀ (kmX kmY : ℕ → ℕ → ℤ) (pXY : List (List ℕ)) (yXY : List ℕ) (pYX : List (List ℕ)) (yYX : List ℕ),
-      (∀ pi ∈ pXY, pi.Perm (List.range n)) → (∀ y ∈ yXY, y < m) →
-      (∀ pi ∈ pYX, pi.Perm (List.range m)) → (∀ y ∈ yYX, y < n) →
-      ∀ lo hi : ℚ, estimateHalf kmX kmY DX DY pXY yXY pYX yYX = .ok (lo, hi) →
-        lo ≤ mGH (matFn DX n) (matFn DY m) ∧ mGH (matFn DX n) (matFn DY m) ≤ hi ∧
-          ∃ a b : ℕ, lo = (a : ℚ) / 2 ∧ hi = (b : ℚ) / 2
-
 /-- **upper half of the bracket** (unconditional): `mGH ≤ upper`, both estimates in `½ℕ`. -/
 theorem brackets_upper (hX : DistMat DX n) (hY : DistMat DY m)
     (kmX kmY : ℕ → ℕ → ℤ) (pXY : List (List ℕ)) (yXY : List ℕ) (pYX : List (List ℕ)) (yYX : List ℕ)
@@ -214,16 +240,33 @@ theorem brackets_upper (hX : DistMat DX n) (hY : DistMat DY m)
     have : (mGH2 (matFn DX n) (matFn DY m) : ℚ) ≤ (ub : ℚ) := by exact_mod_cast this
     linarith
 
-/-- **the bracket** `lower ≤ mGH ≤ upper`, both in `½ℕ`, given [P2] `GreedyComplete`. -/
-theorem brackets_partial (hG : GreedyComplete) : Brackets := by
-  intro DX DY n m _ _ hX hY kmX kmY pXY yXY pYX yYX hpXY hyXY hpYX hyYX lo hi h
+/-- **the bracket**: whatever permutations and first images the generator yields, in whatever
+    number, `lower ≤ mGH ≤ upper`, and both returned values are non-negative multiples of 1/2. -/
+theorem brackets (hX : DistMat DX n) (hY : DistMat DY m)
+    (kmX kmY : ℕ → ℕ → ℤ) (pXY : List (List ℕ)) (yXY : List ℕ) (pYX : List (List ℕ)) (yYX : List ℕ)
+    (hpXY : ∀ pi ∈ pXY, pi.Perm (List.range n)) (hyXY : ∀ y ∈ yXY, y < m)
+    (hpYX : ∀ pi ∈ pYX, pi.Perm (List.range m)) (hyYX : ∀ y ∈ yYX, y < n)
+    {lo hi : ℚ} (h : estimateHalf kmX kmY DX DY pXY yXY pYX yYX = .ok (lo, hi)) :
+    lo ≤ mGH (matFn DX n) (matFn DY m) ∧ mGH (matFn DX n) (matFn DY m) ≤ hi ∧
+      ∃ a b : ℕ, lo = (a : ℚ) / 2 ∧ hi = (b : ℚ) / 2 := by
   obtain ⟨h1, h2, b, h3⟩ := brackets_upper hX hY kmX kmY pXY yXY pYX yYX hpXY hyXY hpYX hyYX h
   refine ⟨?_, h1, _, b, h2, h3⟩
   rw [h2]
   unfold mGH
   have : ((findLb kmX kmY DX DY : ℕ) : ℚ) ≤ (mGH2 (matFn DX n) (matFn DY m) : ℚ) := by
-    exact_mod_cast find_lb_sound_partial hG hX hY kmX kmY
+    exact_mod_cast find_lb_sound hX hY kmX kmY
   linarith
+
+/-- the estimate never fails when each direction has a permutation and a first image for each -/
+theorem estimate_total (kmX kmY : ℕ → ℕ → ℤ) (pXY : List (List ℕ)) (yXY : List ℕ)
+    (pYX : List (List ℕ)) (yYX : List ℕ) (h1 : pXY ≠ []) (h2 : pYX ≠ [])
+    (hp1 : ∀ pi ∈ pXY, pi ≠ []) (hp2 : ∀ pi ∈ pYX, pi ≠ [])
+    (hl1 : pXY.length ≤ yXY.length) (hl2 : pYX.length ≤ yYX.length) :
+    ∃ r, estimateHalf kmX kmY DX DY pXY yXY pYX yYX = .ok r := by
+  obtain ⟨r, hr⟩ := find_ub_total (DX := DX) (DY := DY) pXY yXY pYX yYX (findLb kmX kmY DX DY)
+    h1 h2 hp1 hp2 hl1 hl2
+  exact ⟨(((findLb kmX kmY DX DY : ℕ) : ℚ) / 2, ((r.1 : ℕ) : ℚ) / 2),
+    by simp only [estimateHalf, estimate, hr, Except.map]⟩
 
 example : estimate (wrapMul 8) (wrapMul 8) P3 C4 [[2, 0, 1]] [3] [[3, 1, 0, 2]] [1] = .ok (1, 1) := by
   decide
@@ -247,17 +290,27 @@ theorem mGH2_eq_zero_of_isometric (h : Isometric (matFn DX n) (matFn DY m)) :
     rw [this]; simp [Nat.dist_self]
   simp [mGH2, h1, h2]
 
-/-- the full statement: isomorphic graphs receive lower bound 0 -/
-def IsoLbZero : Prop :=
-  ∀ {DX DY : Mat} {n m : ℕ} [NeZero n] [NeZero m], DistMat DX n → DistMat DY m →
-    Isometric (matFn DX n) (matFn DY m) → ∀ kmX kmY : ℕ → ℕ → ℤ, findLb kmX kmY DX DY = 0
-
-/-- **isomorphic graphs always receive lower bound 0**, given [P2] `GreedyComplete`. -/
-theorem iso_lb_zero_partial (hG : GreedyComplete) : IsoLbZero := by
-  intro DX DY n m _ _ hX hY hiso kmX kmY
-  have := find_lb_sound_partial hG hX hY kmX kmY
+/-- **isomorphic graphs always receive lower bound 0** (every labelling, every `keyMul`). -/
+theorem iso_lb_zero (hX : DistMat DX n) (hY : DistMat DY m)
+    (hiso : Isometric (matFn DX n) (matFn DY m)) (kmX kmY : ℕ → ℕ → ℤ) :
+    findLb kmX kmY DX DY = 0 := by
+  have := find_lb_sound hX hY kmX kmY
   rw [mGH2_eq_zero_of_isometric hiso] at this
   exact Nat.le_zero.1 this
+
+/-- `C4` relabelled by the permutation `(0 2 1 3)` -/
+def C4' : Mat := [[0, 2, 1, 1], [2, 0, 1, 1], [1, 1, 0, 2], [1, 1, 2, 0]]
+
+/-- the transposition `(1 2)` of the vertices -/
+def swap12 : Fin 4 ≃ Fin 4 where
+  toFun i := if i = 1 then 2 else if i = 2 then 1 else i
+  invFun i := if i = 1 then 2 else if i = 2 then 1 else i
+  left_inv := by decide
+  right_inv := by decide
+
+example : Isometric (matFn C4 4) (matFn C4' 4) := ⟨swap12, by decide⟩
+
+example : findLb (wrapMul 8) (wrapMul 8) C4 C4' = 0 := by decide
 
 end
 
